@@ -1,3 +1,215 @@
 import Driver.Common
--- stub driver (not yet implemented)
-def main : IO Unit := Driver.run () (fun s _ => (s, "bad-op"))
+import SSV.Model.Packet
+open SSV SSV.Packet
+
+/-! Line-protocol driver of the C05 packet model.  State: the current buffer and a saved wire packet. -/
+
+structure St where
+  buf : Bytes := []
+  wire : Bytes := []
+
+def canary (seed i : Nat) : UInt8 := UInt8.ofNat (i * 167 + (i / 256) * 13 + seed)
+def payByte (seed j : Nat) : UInt8 := UInt8.ofNat (j * 59 + (j / 256) * 7 + seed * 3 + 101)
+
+def arg (fs : List String) (k : String) : Option String :=
+  (fs.find? (fun f => f.startsWith (k ++ "="))).map (fun f => (f.drop (k.length + 1)).toString)
+
+def argNat (fs : List String) (k : String) : Option Nat := (arg fs k).bind (·.toNat?)
+def argInt (fs : List String) (k : String) : Option Int := (arg fs k).bind (·.toInt?)
+def argHex (fs : List String) (k : String) : Option Bytes := (arg fs k).bind ofHex?
+
+def parseIP (s : String) : Option IP :=
+  match s.splitOn ":" with
+  | ["4", h] => (ofHex? h).map .v4
+  | ["6", h] => (ofHex? h).map .v6
+  | _ => none
+
+def parseAddrPort (s : String) : Option AddrPort :=
+  match s.splitOn ":" with
+  | ["4", h, p] => do pure ⟨.v4 (← ofHex? h), ← p.toNat?⟩
+  | ["6", h, p] => do pure ⟨.v6 (← ofHex? h), ← p.toNat?⟩
+  | _ => none
+
+def parseAddr (s : String) : Option Addr :=
+  match s.splitOn ":" with
+  | ["z"] => some .zero
+  | ["d", h, p] => do pure (.dom (← ofHex? h) (← p.toNat?))
+  | _ => (parseAddrPort s).map .ip
+
+def showAddrPort (a : AddrPort) : String :=
+  match a.ip with
+  | .v4 x => s!"4:{toHexField x}:{a.port}"
+  | .v6 x => s!"6:{toHexField x}:{a.port}"
+
+def showAddr : Addr → String
+  | .zero => "z"
+  | .ip ap => showAddrPort ap
+  | .dom n p => s!"d:{toHexField n}:{p}"
+
+def parsePolicy : String → Option Policy
+  | "n" => some .noPadding
+  | "d" => some .padPlainDNS
+  | "a" => some .padAll
+  | _ => none
+
+def parseProto (s : String) : Option Proto :=
+  match s.splitOn ":" with
+  | ["direct"] => some .direct
+  | ["none"] => some .none
+  | ["socks5"] => some .socks5
+  | ["ss", k] => k.toNat?.map .ss2022
+  | _ => none
+
+def showErr : Err → String
+  | .tooBig => "tooBig" | .tooSmall => "tooSmall" | .incomplete => "incomplete" | .typeMismatch => "typeMismatch"
+  | .badTimestamp => "badTimestamp" | .csidMismatch => "csidMismatch" | .addr => "addr" | .frag => "frag"
+  | .source => "source" | .aeadOpen => "open" | .userNotFound => "userNotFound" | .resolve => "resolve"
+
+def h (bs : Bytes) : String := toString (fnv64 bs).toNat
+
+/-- split the hashes of identity headers (16 bytes each) and pair them with the toy identity keys -/
+def eihOf (hashes : Bytes) : List (Bytes × Bytes) :=
+  (List.range (hashes.length / 16)).map (fun i => ([UInt8.ofNat (10 + i)], sub hashes (16 * i) 16))
+
+def userBlock : Bytes := [1]
+def aeadKey : Bytes := [2]
+/-- the block key of the server side: the first identity key when the client uses identity headers -/
+def blockFor (idh : Nat) : Bytes := if idh = 0 then userBlock else [10]
+
+def outPacked (st : St) (o : Outcome Packed) : St × String :=
+  match o with
+  | .ok r =>
+    let ps := r.packetStart.toNat
+    let pl := r.packetLen.toNat
+    ({ st with buf := r.buf }, s!"ok {r.packetStart} {r.packetLen} {h r.view} {h (r.buf.take ps)} {h (r.buf.drop (ps + pl))}")
+  | .err e => (st, s!"err {showErr e}")
+  | .panic => (st, "panic")
+  | .noRoom => (st, "noRoom")
+
+def outUnpacked {α : Type} (sh : α → String) (st : St) (ps pl : Nat) (o : Outcome (Unpacked α)) : St × String :=
+  match o with
+  | .ok r =>
+    ({ st with buf := r.buf },
+      s!"ok {sh r.addr} {r.payloadStart} {r.payloadLen} {h (sub r.buf r.payloadStart.toNat r.payloadLen.toNat)} {h (r.buf.take ps)} {h (r.buf.drop (ps + pl))}")
+  | .err e => (st, s!"err {showErr e}")
+  | .panic => (st, "panic")
+  | .noRoom => (st, "noRoom")
+
+def showHeadroom (x : Headroom) : String := s!"{x.front} {x.rear}"
+
+def stepPack (st : St) (kind : String) (fs : List String) : Option (St × String) := do
+  let start ← argNat fs "start"
+  let len ← argNat fs "len"
+  match kind with
+  | "ssc" =>
+    let r := ssClientPack toyCrypto userBlock aeadKey (eihOf (← argHex fs "eih")) (← argInt fs "mps") (← (arg fs "pol").bind parsePolicy)
+      st.buf (← (arg fs "addr").bind parseAddr) start len (← argNat fs "rand") (← argHex fs "ts") (← argHex fs "sid") (← argHex fs "pid")
+    pure (outPacked st r)
+  | "sss" =>
+    let r := ssServerPack toyCrypto userBlock aeadKey (← (arg fs "pol").bind parsePolicy) st.buf
+      (← (arg fs "src").bind parseAddrPort) start len (← argInt fs "max") (← argNat fs "rand") (← argHex fs "ts")
+      (← argHex fs "ssid") (← argHex fs "spid") (← argHex fs "csid")
+    pure (outPacked st r)
+  | "nonec" => pure (outPacked st (plainClientPack false (← argInt fs "limit") st.buf (← (arg fs "addr").bind parseAddr) start len))
+  | "socks5c" => pure (outPacked st (plainClientPack true (← argInt fs "limit") st.buf (← (arg fs "addr").bind parseAddr) start len))
+  | "nones" => pure (outPacked st (plainServerPack false st.buf (← (arg fs "src").bind parseAddrPort) start len (← argInt fs "max")))
+  | "socks5s" => pure (outPacked st (plainServerPack true st.buf (← (arg fs "src").bind parseAddrPort) start len (← argInt fs "max")))
+  | "directc" =>
+    let res ← arg fs "res"
+    let res? ← (if res == "-" then some none else (parseIP res).map some)
+    pure (outPacked st (directClientPack (← argInt fs "mtu") res? st.buf (← (arg fs "addr").bind parseAddr) start len))
+  | "directs" =>
+    pure (outPacked st (directServerPack (← (arg fs "target").bind parseAddr) ((← argNat fs "only") == 1) st.buf
+      (← (arg fs "src").bind parseAddrPort) start len (← argInt fs "max")))
+  | _ => none
+
+def stepUnpack (st : St) (kind : String) (fs : List String) : Option (St × String) := do
+  let start ← argNat fs "start"
+  let len ← argNat fs "len"
+  match kind with
+  | "sss" =>
+    let idh ← argNat fs "idh"
+    let lookup := (← argNat fs "lookup") == 1
+    let users : List (Bytes × Bytes) := [((← argHex fs "uhash"), aeadKey)]
+    pure (outUnpacked showAddr st start len
+      (ssServerUnpack toyCrypto (blockFor idh) aeadKey idh lookup users (← argInt fs "now") st.buf start len))
+  | "ssc" =>
+    pure (outUnpacked showAddrPort st start len
+      (ssClientUnpack toyCrypto userBlock aeadKey (← argHex fs "csid") (← argInt fs "now") st.buf start len))
+  | "nones" => pure (outUnpacked showAddr st start len (plainServerUnpack false st.buf start len))
+  | "socks5s" => pure (outUnpacked showAddr st start len (plainServerUnpack true st.buf start len))
+  | "nonec" =>
+    pure (outUnpacked showAddrPort st start len
+      (plainClientUnpack false (← (arg fs "server").bind parseAddrPort) (← (arg fs "from").bind parseAddrPort) st.buf start len))
+  | "socks5c" =>
+    pure (outUnpacked showAddrPort st start len
+      (plainClientUnpack true (← (arg fs "server").bind parseAddrPort) (← (arg fs "from").bind parseAddrPort) st.buf start len))
+  | "directs" => pure (outUnpacked showAddr st start len (directServerUnpack (← (arg fs "target").bind parseAddr) st.buf start len))
+  | "directc" => pure (outUnpacked showAddrPort st start len (directClientUnpack (← (arg fs "from").bind parseAddrPort) st.buf start len))
+  | _ => none
+
+def stepOpt (st : St) (fs : List String) : Option (St × String) :=
+  match fs with
+  | ["buf", n, seed] => do
+    let n ← n.toNat?
+    let seed ← seed.toNat?
+    pure ({ st with buf := (List.range n).map (canary seed) }, "ok")
+  | ["fill", start, len, seed] => do
+    let start ← start.toNat?
+    let len ← len.toNat?
+    let seed ← seed.toNat?
+    if start + len > st.buf.length then pure (st, "panic")
+    else pure ({ st with buf := splice st.buf start ((List.range len).map (payByte seed)) }, "ok")
+  | ["take", start, len] => do
+    let start ← start.toNat?
+    let len ← len.toNat?
+    if start + len > st.buf.length then pure (st, "panic")
+    else pure ({ st with wire := sub st.buf start len }, "ok")
+  | ["put", start] => do
+    let start ← start.toNat?
+    if start + st.wire.length > st.buf.length then pure (st, "panic")
+    else pure ({ st with buf := splice st.buf start st.wire }, "ok")
+  | ["set", start, hex] => do
+    let start ← start.toNat?
+    let d ← ofHex? hex
+    if start + d.length > st.buf.length then pure (st, "panic")
+    else pure ({ st with buf := splice st.buf start d }, "ok")
+  | ["get", start, len] => do
+    let start ← start.toNat?
+    let len ← len.toNat?
+    pure (st, toHexField (sub st.buf start len))
+  | ["hash", start, len] => do
+    let start ← start.toNat?
+    let len ← len.toNat?
+    pure (st, h (sub st.buf start len))
+  | "pack" :: kind :: rest => stepPack st kind rest
+  | "unpack" :: kind :: rest => stepUnpack st kind rest
+  | ["headroom", role, proto] => do
+    let p ← parseProto proto
+    match role with
+    | "cp" => pure (st, showHeadroom (clientPackerHeadroom p))
+    | "su" => pure (st, showHeadroom (serverUnpackerHeadroom p))
+    | "sp" => pure (st, showHeadroom (serverPackerHeadroom p))
+    | "cu" => pure (st, showHeadroom (clientUnpackerHeadroom p))
+    | _ => none
+  | "layout" :: "up" :: rest => do
+    let l := uplinkLayout (← argInt rest "mtu") ⟨← argInt rest "cf", ← argInt rest "cr"⟩ (← (arg rest "server").bind parseProto)
+    pure (st, s!"{l.front} {l.recvSize} {l.bufSize}")
+  | "layout" :: "down" :: rest => do
+    let l := downlinkLayout ((← argNat rest "session") == 1) (← argInt rest "recv") (← (arg rest "server").bind parseProto)
+      (← (arg rest "client").bind parseProto)
+    pure (st, s!"{l.front} {l.recvSize} {l.bufSize}")
+  | "maxheadroom" :: rest => do
+    let m := maxHeadroom ⟨← argInt rest "af", ← argInt rest "ar"⟩ ⟨← argInt rest "bf", ← argInt rest "br"⟩
+    pure (st, showHeadroom m)
+  | ["mps", mtu, fam] => do
+    let mtu ← mtu.toInt?
+    pure (st, toString (SSV.Gen.C05.maxPacketSizeForAddr mtu (fam == "4")))
+  | _ => none
+
+def stepC05 (st : St) (line : String) : St × String :=
+  match stepOpt st (fields line) with
+  | some r => r
+  | none => (st, "bad-op")
+
+def main : IO Unit := Driver.run ({} : St) stepC05
